@@ -279,8 +279,13 @@ def rand_ops(rng, pats, deps, nops, guard=None):
             ops.append("m %s %s" % (sid(), rng.choice(FAULTS)))
             if rng.random() < 0.3:
                 ops.append("m %s %s" % (sid(), rng.choice(FAULTS)))
-        elif r < 0.93:
+        elif r < 0.915:
             ops.append("x %s" % sid())
+        elif r < 0.93:
+            # administrative methods: SaveStartup (file unwritable 1 in 4), ResetForRecovery (not with the MSS guard:
+            # it drops the group the model's guard parameter stands for), ReloadFRR
+            k = rng.random()
+            ops.append("S %d" % (rng.random() < 0.25) if k < 0.45 else "F " + rng.choice(["-", "-", "r", "R"]) if k < 0.8 or guard else "Z")
         elif r < 0.965:
             ops.append("t %d" % rng.choice([1, 7, 14, 15, 16, 30]))
         elif r < 0.985:
@@ -383,6 +388,11 @@ def boundary_cases():
     for col in (False,):
         out.append(rego + recipe_tokens(("deep", col)) + ["ops", "c", "s @ interfaces.eth1 %s 0" % o1, "m @ 0:-", "c",
                    "s @ interfaces.eth1.mtu i1 0", "m @ 0:-"])
+    # administrative methods between and inside sessions; the VPP-recovery sequence ResetForRecovery + start-up
+    out.append(reg3 + ["ops"] + base + ["S 0", "m 1 0:-", "S 1", "S 0", "c", "s @ interfaces.eth1.mtu i1400 0", "F -", "F r", "F R",
+                                       "Z", "m @ 0:-", "c", "s @ interfaces.eth2.mtu i1 0", "m @ 0:-", "F -", "S 0"])
+    out.append(regb + ["ops", boot_op("0:-"), "c", "s @ interfaces.eth0.mtu i9000 0", "m @ 0:-", "c", "Z", boot_op("0:-"), "c",
+                       "s @ interfaces.eth0.mtu i1400 0", "m @ 0:-", "Z", boot_op("2:-"), "S 0"])
     # the routing daemon: reload fails cleanly / after the daemon took the candidate; a Rollback call fails
     for f in ["0:r", "0:R", "0:Rq1", "0:rq2", "3:q1", "0:tq2", "0:sq1"]:
         out.append(reg3 + ["ops"] + base + ["m 1 " + f, "m 1 0:-", "c", "s 2 interfaces.eth1.mtu i1400 0", "m 2 0:-",
@@ -471,7 +481,7 @@ def split_case(case):
             head = t[:p]
     p += 1  # "ops"
     ops = []
-    ar = {"c": 1, "x": 2, "d": 2, "s": 5, "t": 2, "b": 2, "m": 3, "l": 4, "B": 4}
+    ar = {"c": 1, "x": 2, "d": 2, "s": 5, "t": 2, "b": 2, "m": 3, "l": 4, "B": 4, "S": 2, "Z": 1, "F": 2}
     while p < len(t):
         k = ar[t[p]]
         ops.append(t[p:p + k])
@@ -619,7 +629,9 @@ def monitor(case, line, tolerate=None):
     for i, (o, s) in enumerate(zip(ops, st)):
         res, tr, d = parse_step(s)
         persisted = [k for k in "RSFW" if k in d]
-        if o[0] == "B":
+        if o[0] in "SZF":
+            pass        # administrative methods: their effect is pinned by the model (C13_admin_effects)
+        elif o[0] == "B":
             # a start-up that does not succeed must leave nothing of its configuration published
             if res not in ("ok", "bootversion", "nochanges") and ("R" in d or "F" in d or "W" in d):
                 if "startup-publishes-before-commit" not in tol:
